@@ -378,18 +378,109 @@ def check_hdf5_index(ctx: Ctx) -> None:
     ctx.ob("5.7-reopen", cname(HFS, "HDF5FileSingleton", "write_data"), ok, "the entry hash written to the file must be computed from the data being written at entry creation (the inputs)", node=(hashes or [w])[0])
 
 
+def check_hit_untouched(ctx: Ctx) -> None:
+    """5.9: serving a hit does not edit the stored entry.
+
+    A full cache hands out its own entry (MemoryFullCache without shared memory returns the stored dictionaries): a
+    hit that converts / renames / scales values inside them changes what the next hit returns.  Tags: D = a mapping of
+    the entry, C = a shallow copy of one (its values are still the stored arrays), A = a stored array.
+    """
+    from gv.dataflow import Forward
+
+    n_sites = 0
+    for rel, clsn in ((BD, "BaseDiscipline"), ("core/discipline/discipline.py", "Discipline")):
+        cls = ctx.index.cls(rel, clsn)
+        for mname, m in sorted(cls.methods.items()):
+            reads = [n for n in walk_body(m) if isinstance(n, ast.Subscript) and isinstance(n.ctx, ast.Load) and dotted(n.value) == "self.cache"]
+            if not reads:
+                continue
+            con = cname(rel, clsn, mname)
+            cfg = cfg_of(m)
+
+            def ev(e, env):
+                if isinstance(e, ast.Subscript) and dotted(e.value) == "self.cache":
+                    return frozenset({"E"})
+                if isinstance(e, ast.Name):
+                    return env.get(e.id, frozenset())
+                if isinstance(e, ast.Attribute):
+                    b = ev(e.value, env)
+                    if "E" in b and e.attr in ("inputs", "outputs", "jacobian"):
+                        return frozenset({"D"})
+                    return b & {"A"}
+                if isinstance(e, ast.Subscript):
+                    b = ev(e.value, env)
+                    return frozenset({"A"}) if b & {"D", "C"} else (frozenset({"D"}) if "E" in b else b & {"A"})
+                if isinstance(e, ast.Call):
+                    la = last_attr(e)
+                    recv = ev(e.func.value, env) if isinstance(e.func, ast.Attribute) else frozenset()
+                    if la == "copy" and recv & {"D", "C"}:
+                        return frozenset({"C"})
+                    if la in ("dict",) and e.args and ev(e.args[0], env) & {"D", "C"}:
+                        return frozenset({"C"})
+                    if la in ("get", "pop", "setdefault") and recv & {"D", "C"}:
+                        return frozenset({"A"})
+                    return frozenset()
+                if isinstance(e, ast.IfExp):
+                    return ev(e.body, env) | ev(e.orelse, env)
+                return frozenset()
+
+            def loop_elem(it, env):
+                if isinstance(it, ast.Call) and isinstance(it.func, ast.Attribute) and it.func.attr in ("items", "values") and ev(it.func.value, env) & {"D", "C"}:
+                    return frozenset({"A"})
+                return frozenset()
+
+            def unpack(value_expr, env, i, n):
+                # (name, value) pairs of .items(): the value is a stored array
+                if isinstance(value_expr, ast.Call) and isinstance(value_expr.func, ast.Attribute) and value_expr.func.attr == "items" and ev(value_expr.func.value, env) & {"D", "C"}:
+                    return frozenset({"A"}) if i == 1 else frozenset()
+                return frozenset()
+
+            fw = Forward(cfg, ev, init={}, loop_elem=loop_elem, unpack=unpack)
+            bad = []
+            for n in walk_body(m):
+                if isinstance(n, ast.Subscript) and isinstance(n.ctx, (ast.Store, ast.Del)):
+                    t = fw.tags(n.value) if cfg.has(n) else frozenset()
+                    n_sites += 1
+                    if t & {"D", "A"}:
+                        bad.append((n, "item assignment into " + ("a mapping of the stored entry" if "D" in t else "a stored array")))
+                elif isinstance(n, ast.AugAssign) and isinstance(n.target, ast.Name) and cfg.has(n):
+                    t = fw.at(n).get(n.target.id, frozenset())
+                    n_sites += 1
+                    if "A" in t:
+                        bad.append((n, "in-place operation on a stored array"))
+                elif isinstance(n, ast.Call) and isinstance(n.func, ast.Attribute) and n.func.attr in ("update", "pop", "clear", "setdefault", "popitem", "fill", "resize", "sort") and cfg.has(n):
+                    t = fw.tags(n.func.value)
+                    n_sites += 1
+                    if t & {"D"} or (n.func.attr in ("fill", "resize", "sort") and "A" in t):
+                        bad.append((n, f".{n.func.attr}() on the stored entry"))
+            for n, what in bad:
+                ctx.ob("5.9-hit-untouched", con, False, f"{what}: serving a hit edits the entry kept by the cache (a full cache without shared memory returns its own dictionaries), so the next hit returns something else", node=n)
+            if not bad:
+                ctx.ob("5.9-hit-untouched", con, True, "", node=reads[0], stmt="the entry read from the cache is only read")
+    ctx.floor("5.9-hit-untouched", 2)
+    ctx.counts["5.9-sites"] = n_sites
+
+
 def run(ctx: Ctx) -> None:
     check_execute(ctx)
+    check_hit_untouched(ctx)
     check_copies(ctx)
     check_simple_cache(ctx)
     check_full_cache_compare(ctx)
     check_jacobian_flag(ctx)
     lock_discipline(ctx, "5.6-lock")
     check_hdf5_index(ctx)
+    # an entry served from the HDF5 cache is what was stored only if the file tables are read back as written
+    # (names, groups, sparse layout): the writer/reader agreement of C11 is part of "a hit returns the stored entry"
+    from gv.props import c11
+    from gv.props.c12 import _Prefixed
+
+    c11.check_cache_tables(_Prefixed(ctx, "5.8-stored-entry/"))
 
 
 # ---------------------------------------------------------------------------
 WITNESSES = [
+    {"name": "hit-converts-inside-the-stored-entry", "file": BD, "old": "            cache_output = cache_entry.outputs.copy()\n", "new": "            cache_output = cache_entry.outputs\n", "expect": "5.9"},
     {"name": "simple-cache-keeps-the-callers-jacobian", "file": "caches/simple_cache.py", "old": "        self.__inputs = deepcopy_dict_of_arrays(input_data)\n        self.__jacobian = deepcopy_dict_of_arrays(jacobian_data)", "new": "        self.__inputs = deepcopy_dict_of_arrays(input_data)\n        self.__jacobian = jacobian_data", "expect": "5.2"},
     {"name": "simple-cache-keeps-the-callers-jacobian", "file": "caches/simple_cache.py", "old": "        self.__inputs = deepcopy_dict_of_arrays(input_data)\n        self.__jacobian = deepcopy_dict_of_arrays(jacobian_data)", "new": "        self.__inputs = deepcopy_dict_of_arrays(input_data)\n        self.__jacobian = jacobian_data", "expect": "5.2"},
     {"name": "lookup-after-run", "file": BD, "old": "        if self.cache is not None:\n            if self.__can_load_cache(input_data):\n                self.io.output_grammar.validate(self.io.data)\n                return self.io.data\n\n            # Keep a pristine copy of the input data before it is eventually changed.\n            input_data_for_cache = self.__create_input_data_for_cache(input_data)\n", "new": "        if self.cache is not None:\n            # Keep a pristine copy of the input data before it is eventually changed.\n            input_data_for_cache = self.__create_input_data_for_cache(input_data)\n", "expect": "5.1"},
